@@ -11,7 +11,9 @@
       any other character ends a non-SGR control function.
   SGR parameters understood (the ones curtsies uses): 0 reset all; 1 bold, 2 dark/faint, 3 italic,
   4 underline, 5 blink, 7 invert; 30-37 foreground, 39 default foreground; 40-47 background,
-  49 default background; an empty parameter (ESC[m, ESC[;m) is 0.  Anything else is recorded as
+  49 default background; the "off" codes 22 (normal intensity: not bold, not faint), 23, 24, 25, 27, which
+  curtsies does not emit today but which are SGR all the same; an empty parameter (ESC[m, ESC[;m) is 0.
+  Anything else is recorded as
   `Ctl.unsupportedSgr n` and leaves the state alone.
 
   Result: the displayed cells in order, the final graphic state, every control function that was
@@ -46,6 +48,11 @@ def applySgr (n : Nat) (g : Eff) : Option Eff :=
   else if n = 39 then some { g with fg := none }
   else if h : 40 ≤ n ∧ n ≤ 47 then some { g with bg := some ⟨n - 40, by omega⟩ }
   else if n = 49 then some { g with bg := none }
+  else if n = 22 then some { g with bold := false, dark := false }   -- normal intensity: neither bold nor faint
+  else if n = 23 then some { g with italic := false }
+  else if n = 24 then some { g with underline := false }
+  else if n = 25 then some { g with blink := false }
+  else if n = 27 then some { g with invert := false }
   else none
 
 /-- Apply a parameter list left to right, collecting the unsupported ones. -/
